@@ -360,6 +360,47 @@ var scenarios = map[string]func(t *testing.T, rep *Report, root string){
 		w.observe()
 		w.S.StopAll()
 	},
+	// Stop() arrives while an acknowledged operation is inside StateMachine.Apply; the same Raft value is
+	// restarted with the same state machine: every operation must reach that state machine exactly once
+	"stop-during-apply-then-restart": func(t *testing.T, rep *Report, root string) {
+		w := newWorld(t, rep, "stop-during-apply-then-restart", root, SimOpts{}, []uint64{1})
+		w.waitLeader(2 * time.Second)
+		n := w.S.Nodes[1]
+		w.submit("rep", 1, 0, false)
+		w.auto(100*time.Millisecond, nil, nil)
+		n.FSM.GateApply = make(chan struct{})
+		w.submit("rep", 1, 0, false) // committed at once (sole voter); its Apply parks
+		w.auto(50*time.Millisecond, nil, nil)
+		stopped := make(chan error, 1)
+		go func() { n.R.Stop(); stopped <- nil }() // Stop waits for the apply loop
+		time.Sleep(time.Millisecond)
+		synctest.Wait()
+		close(n.FSM.GateApply)
+		n.FSM.GateApply = nil
+		for i := 0; i < 5000; i++ {
+			select {
+			case <-stopped:
+				i = 5000
+			default:
+				for _, c := range w.S.Take(func(*Call) bool { return true }) {
+					w.S.Fail(c)
+				}
+				time.Sleep(time.Millisecond)
+				synctest.Wait()
+			}
+		}
+		if err := n.R.Restart(); err != nil {
+			w.violate("C18", "Restart of a stopped node failed", err.Error(), map[string]string{"oracle": "restart-in-place"})
+			w.S.StopAll()
+			return
+		}
+		w.waitLeader(3 * time.Second)
+		w.submit("rep", 1, 0, false)
+		x := w.lastOp()
+		w.auto(2*time.Second, nil, func() bool { return w.opDone(x) })
+		w.observe()
+		w.S.StopAll()
+	},
 	// a snapshot taken while a membership change is appended but not committed: it must carry the
 	// committed configuration, not the one the leader already uses
 	"snapshot-under-pending-membership-change": func(t *testing.T, rep *Report, root string) {
